@@ -187,6 +187,13 @@ pub fn full_actions<S: Sch>() -> Vec<Act> {
             a.push(Act::Insert { key: nb(key), val });
         }
     }
+    // values far above the size limit (must be refused, never panic)
+    for (l, n) in [("str300", 300usize), ("str70000", 70_000)] {
+        a.push(Act::InsertRaw { key: nb("zz"), raw: NB::new(l, &rlp::enc_str(&vec![0x5a; n])) });
+        a.push(Act::Insert { key: nb("zz"), val: Val::Bytes(vec![0x5a; n]) });
+        a.push(Act::RemoveInsert { l: format!("rm=[],ins=[zz={l}]"), rm: vec![], ins: vec![(nb("zz"), NB::new(l, &vec![0x5a; n]))] });
+    }
+    a.push(Act::SetClientInfo("n".repeat(300), "v".into(), None));
     for ip in [v4([0, 0, 0, 0]), v4([127, 0, 0, 1]), v4([255, 255, 255, 255]), v6(0), v6(1), v6(255)] {
         a.push(Act::SetIp(ip));
     }
@@ -417,6 +424,9 @@ pub fn builder_actions<S: Sch>(full: bool) -> Vec<BAct> {
         BAct::AddValue { key: nb("zz"), val: Val::Bytes(vec![0x7a; 150]) },
         BAct::AddValue { key: nb("zy"), val: Val::Bytes(vec![0x7a; 60]) },
         BAct::AddValue { key: nb("a"), val: Val::VecStr(vec!["x".into(), "yy".into()]) },
+        BAct::AddValue { key: nb("zz"), val: Val::Bytes(vec![0x5a; 300]) },
+        BAct::AddValue { key: nb("zz"), val: Val::Bytes(vec![0x5a; 70_000]) },
+        BAct::ClientInfo("n".repeat(300), "v".into(), None),
     ];
     let keys: Vec<NB> = if full {
         kgen()
